@@ -90,3 +90,27 @@ Proof.
     2:{ cbn. destruct l2; discriminate. }
     rewrite IH. cbn [join_lf]. rewrite <- app_assoc. reflexivity.
 Qed.
+
+(* the same function with the current line accumulated in reverse (linear time); used by the
+   extracted oracles *)
+Fixpoint text_lines_fast_aux (rcur : bytes) (after_cr : bool) (s : bytes) : list bytes :=
+  match s with
+  | [] => match rcur with [] => [] | _ => [rev rcur] end
+  | b :: r =>
+      if after_cr && (b =? LF)%N then text_lines_fast_aux rcur false r
+      else if (b =? LF)%N then rev rcur :: text_lines_fast_aux [] false r
+      else if (b =? CR)%N then rev rcur :: text_lines_fast_aux [] true r
+      else text_lines_fast_aux (b :: rcur) false r
+  end.
+Definition text_lines_fast (s : bytes) : list bytes := text_lines_fast_aux [] false s.
+
+Lemma text_lines_fast_aux_eq : forall s rcur cr, text_lines_fast_aux rcur cr s = text_lines_aux (rev rcur) cr s.
+Proof.
+  induction s as [|b r IH]; intros rcur cr; cbn [text_lines_fast_aux text_lines_aux].
+  - destruct rcur as [|x rc]; [reflexivity|]. cbn [rev]. destruct (rev rc ++ [x]) eqn:E; [destruct (rev rc); discriminate|reflexivity].
+  - destruct (cr && (b =? LF)%N); [apply IH|].
+    destruct (b =? LF)%N; [f_equal; apply (IH [] false)|].
+    destruct (b =? CR)%N; [f_equal; apply (IH [] true)|]. apply (IH (b :: rcur) false).
+Qed.
+Theorem text_lines_fast_eq s : text_lines_fast s = text_lines s.
+Proof. apply (text_lines_fast_aux_eq s [] false). Qed.
